@@ -468,8 +468,9 @@ def run(ctx):
     ctx.attempt(rule_pure, ctx, "C11.pure", [(FILESET, "FileSet.read"), (FILESET, "FileSet.write")],
                 "read / write leave the FileInfo they were given unchanged (find() hands out the cached objects themselves)")
     # the worker-argument selection rule is shared with C10 (delete/move act on the selection it builds)
-    from .C10 import rule_args
+    from .C10 import rule_args, rule_filenames
     ctx.attempt(rule_args, ctx)
+    ctx.attempt(rule_filenames, ctx)
     # names of written / moved files come from get_filename (C02.table), and move() returns a
     # destination fileset whose path was re-assigned (C01.pathstate)
     from .C02 import rule_table
